@@ -164,8 +164,9 @@ func (d *Device) handleABSEvent(ie *input.InputEvent) {
 	}
 
 	// prevent from repeating value that was already sent before
-	lastValue := d.lastAnalogValue[ie.Source.Name][ie.Event.Code]
-	if lastValue == value {
+	// (an axis that has not reported yet has no such value: its first position is never a repetition)
+	lastValue, reported := d.lastAnalogValue[ie.Source.Name][ie.Event.Code]
+	if reported && lastValue == value {
 		return
 	}
 	shapedValue := value
